@@ -459,6 +459,22 @@ func shake256(n int, parts ...[]byte) []byte {
 type SampleStats struct {
 	Rejected int // candidates thrown away
 	Bytes    int // bytes squeezed
+
+	// RejNTTPoly: consumed 23-bit candidates sitting on the edges of the acceptance test z < q.
+	EqQ, EqQm1, EqQp1, EqMax, EqZero int  // z == q, q-1, q+1, 2^23-1, 0
+	RejectedAtLast                   int  // candidates refused while 255 coefficients were already set
+	EqQAtLast                        bool // one of those was exactly q
+
+	// RejBoundedPoly: where the 256th coefficient came from.
+	LastFromLow bool // it was the low half-byte ...
+	HighDropped bool // ... and the high half-byte of that byte was acceptable but not used
+	LastByte    int  // index of the byte that produced it
+	Edge        int  // half-bytes equal to the largest accepted or the smallest refused value
+
+	// SampleInBall: position draws on the edges of the test j <= i.
+	SelfSwap    int // accepted j == i
+	RejectByOne int // refused j == i+1
+	ZeroPos     int // accepted j == 0
 }
 
 // SampleInBall is Algorithm 29.
@@ -477,10 +493,19 @@ func SampleInBall(p *Params, rho []byte) (*Poly, SampleStats) {
 		st.Bytes++
 		for int(one[0]) > i {
 			st.Rejected++
+			if int(one[0]) == i+1 {
+				st.RejectByOne++
+			}
 			ctx.Read(one)
 			st.Bytes++
 		}
 		j := int(one[0])
+		if j == i {
+			st.SelfSwap++
+		}
+		if j == 0 {
+			st.ZeroPos++
+		}
 		c[i] = c[j]
 		if h[i+p.Tau-256] == 0 {
 			c[j] = 1
@@ -507,11 +532,29 @@ func RejNTTPoly(seed []byte) (*Poly, SampleStats) {
 			b2 -= 128
 		}
 		z := 65536*b2 + 256*int64(s[1]) + int64(s[0])
+		switch z {
+		case Q:
+			st.EqQ++
+		case Q - 1:
+			st.EqQm1++
+		case Q + 1:
+			st.EqQp1++
+		case 1<<23 - 1:
+			st.EqMax++
+		case 0:
+			st.EqZero++
+		}
 		if z < Q {
 			a[j] = z
 			j++
 		} else {
 			st.Rejected++
+			if j == N-1 {
+				st.RejectedAtLast++
+				if z == Q {
+					st.EqQAtLast = true
+				}
+			}
 		}
 	}
 	return &a, st
@@ -540,15 +583,30 @@ func RejBoundedPoly(p *Params, seed []byte) (*Poly, SampleStats) {
 		st.Bytes++
 		z0, ok0 := coeffFromHalfByte(p.Eta, int(z[0])%16)
 		z1, ok1 := coeffFromHalfByte(p.Eta, int(z[0])/16)
+		edgeLo, edgeHi := 14, 15
+		if p.Eta == 4 {
+			edgeLo, edgeHi = 8, 9
+		}
+		for _, hb := range []int{int(z[0]) % 16, int(z[0]) / 16} {
+			if hb == edgeLo || hb == edgeHi {
+				st.Edge++
+			}
+		}
 		if ok0 {
 			a[j] = Mod(z0)
 			j++
+			if j == N {
+				st.LastFromLow, st.HighDropped, st.LastByte = true, ok1, st.Bytes-1
+			}
 		} else {
 			st.Rejected++
 		}
 		if ok1 && j < N {
 			a[j] = Mod(z1)
 			j++
+			if j == N {
+				st.LastByte = st.Bytes - 1
+			}
 		} else if !ok1 {
 			st.Rejected++
 		}
